@@ -461,9 +461,12 @@ def judge(ctx, st, items, report=True):
                 viol("counterexample", dict(base_payload(it, idxs), what="a policy the compiler rejects was installed", go_result=it["go"][:200]), True)
             continue
         must_load = n <= 4096 and (it["uid"] == 0 or it["nnp"])
+        # a thread-sync load while another thread carries a divergent filter is refused by the kernel: an error is the
+        # correct answer then (and a nil answer is judged like any other: the filter must be in force)
+        may_fail = "+div" in it["prober"] and bool(it["flags"] & 1)
         if kv["load"] != "ok":
             stats["load_errors"] += 1
-            if must_load:
+            if must_load and not may_fail:
                 viol("counterexample", dict(base_payload(it, idxs), expected="LoadFilter returns nil (program of %d instructions, kernel limit 4096)" % n,
                                             actual="load=%s status=%s error=%s" % (kv["load"], kv["status"], unhex(kv["msg"])),
                                             what="an accepted policy within the kernel's limits does not load"), True)
@@ -567,6 +570,12 @@ def make_items(ctx, rng, consts, arches, npol, nev):
         nnp = rng.random() < 0.5
         uid = 65534 if (nnp and rng.random() < 0.15) else 0
         prober = "other" if (flags & 1 and rng.random() < 0.7) else "same"
+        if kind != "oversize" and not kind.startswith("truncation"):
+            r = rng.random()
+            if flags & 1 and r < 0.25:
+                prober += "+div"      # another thread carries a filter of its own: the kernel refuses the thread-sync
+            elif not flags & 1 and r < 0.2:
+                prober += "+race"     # another thread loads a different policy at the same time
         dw = pol["default"]
         items.append(dict(cid="k%d" % i, tokens=PolicyGen.tokens(pol), events=eg.events(pol, nev if kind != "oversize" and not kind.startswith("truncation") else 4),
                           flags=flags, nnp=nnp, uid=uid, prober=prober, kind=kind, default_word=dw))
